@@ -18,6 +18,9 @@ type Forks string
 const (
 	ForksLatest  Forks = "latest"  // every proposal active from height 1
 	ForksDevLike Forks = "devlike" // dev config, Proposal026 from 1; 020 at 10, 023 at 12
+	// ForksLatestSync: as latest but without Proposal020's asynchronous casting goroutine
+	// (the proposer executes synchronously as before 020; verification is identical)
+	ForksLatestSync Forks = "latestsync"
 )
 
 // InitProcess prepares process-wide state every harness needs: a scratch working
@@ -54,6 +57,12 @@ func SetForks(f Forks) {
 		c.Proposal025Block = 1000000000
 		c.Proposal026Block = 1
 		c.Proposal027Block = 0
+	case ForksLatestSync:
+		c.Proposal020Block = 1 << 62
+		c.Proposal023Block = 1
+		c.Proposal025Block = 1
+		c.Proposal026Block = 1
+		c.Proposal027Block = 1
 	default:
 		c.Proposal020Block = 1
 		c.Proposal023Block = 1
